@@ -93,6 +93,20 @@ def points(tier):
                     for wrap in ("NO", "YES"):
                         for pl in PLACEMENTS[::5] if wrap == "NO" else PLACEMENTS[::25]:
                             pts.append([nv, 0, "2x3", wrap, False, pol, eng, pl, "all", False, None, case])
+    # LAS 1.2 / 1.0 files and other letter cases of the NULL mnemonic itself; the same object used for two reads (the
+    # first file declares as NULL a value that occurs in the second), with and without a NULL item in the second file
+    for vers in ("1.2", "1.0", "2.0"):
+        for nm in ("NULL", "Null", "null"):
+            if vers == "2.0" and nm == "NULL":
+                continue
+            for eng in ("numpy", "normal"):
+                for pl in PLACEMENTS[::11]:
+                    pts.append([0, 0, "2x3", "NO", False, "strict", eng, pl, "all", False, None, None, vers, nm, None])
+    for mode in ("reuse", "nonull-reuse"):
+        for nv in (0, 1):
+            for eng in ("numpy", "normal"):
+                for pl in PLACEMENTS[::5]:
+                    pts.append([nv, 0, "2x3", "NO", False, "strict", eng, pl, "all", False, None, None, "2.0", "NULL", mode])
     for alt in ([0, 1, "2x3", "NO", False], [0, 2, "2x3", "NO", False], [0, 0, "3x2", "NO", False],
                 [0, 0, "2x3", "YES", False], [0, 0, "2x3", "NO", True], [1, 1, "3x2", "YES", True], [7, 2, "2x3", "NO", False],
                 [2, 1, "2x3", "NO", False]):
@@ -146,7 +160,12 @@ def build(pt):
             lines.append("  ".join(full[1:]))
         else:
             lines.append("  ".join(full))
-    secs = [lasgen.version_section("2.0", wrap), lasgen.well_section(hsp[hs], strt="1", stop="2", step="1"), lasgen.curve_section(curves), lines]
+    vers = pt[12] if len(pt) > 12 and pt[12] else "2.0"
+    nm = pt[13] if len(pt) > 13 and pt[13] else "NULL"
+    mode = pt[14] if len(pt) > 14 else None
+    well = lasgen.well_section(None if mode == "nonull-reuse" else hsp[hs], strt="1", stop="2", step="1")
+    well = [ln.replace("NULL", nm, 1) if ln.lstrip().startswith("NULL") else ln for ln in well]
+    secs = [lasgen.version_section(vers, wrap), well, lasgen.curve_section(curves), lines]
     return lasgen.render(secs), toks, kinds, nullv, r, c
 
 
@@ -164,13 +183,22 @@ def check_point(pt):
 
     def V(clause, expected, observed, sig=None):
         return {"clause": clause, "sig": sig or "%s:null=%s:%s" % (pol, NULLS[nv][0], "wrap" if wrap == "YES" else "nowrap") + (":text" if text else "")
-                + (":declared=%s" % pt[8] if len(pt) > 8 and pt[8] != "all" else "") + (":keep-numpy" if keep_numpy else "") + (":literal-nan" if len(pt) > 10 and pt[10] is not None else "") + (":case=" + pt[11] if len(pt) > 11 and pt[11] else ""),
+                + (":declared=%s" % pt[8] if len(pt) > 8 and pt[8] != "all" else "") + (":keep-numpy" if keep_numpy else "") + (":literal-nan" if len(pt) > 10 and pt[10] is not None else "") + (":case=" + pt[11] if len(pt) > 11 and pt[11] else "")
+                + (":vers=%s:%s" % (pt[12], pt[13]) if len(pt) > 13 and (pt[12] != "2.0" or pt[13] != "NULL") else "") + (":" + pt[14] if len(pt) > 14 and pt[14] else ""),
                 "witness": {"point": pt, "text": textfile},
                 "expected": expected, "observed": observed, "size": len(textfile) + 10 * sum(k != "o" for k in pl),
                 "repro": "import lasio; print(lasio.read(%r, engine=%r, null_policy=%r, **%r).data)" % (textfile, eng, pol, rkw)}
 
+    mode = pt[14] if len(pt) > 14 else None
     try:
-        las = lasio.read(textfile, engine=eng, null_policy=pol, **rkw)
+        if mode:
+            # the object has read another file before: that file's NULL (this file's NULL value, spelled plainly) is not this file's
+            las = lasio.LASFile()
+            las.read(io.StringIO("~V\nVERS. 2.0 : v\nWRAP. NO : w\n~W\nSTRT.M 1 : s\nSTOP.M 2 : s\nSTEP.M 1 : s\nNULL. %s : n\n~C\nD.M : d\nG. : g\n~A\n1 5\n2 6\n"
+                                 % NULLS[nv][1][0]), engine=eng)
+            las.read(io.StringIO(textfile), engine=eng, null_policy=pol, **rkw)
+        else:
+            las = lasio.read(textfile, engine=eng, null_policy=pol, **rkw)
     except Exception as e:
         return [V("read-raises", "successful read", "%s: %s" % (type(e).__name__, str(e)[:150]))], nontriv, "raise", {}, 1
     vio = []
@@ -181,7 +209,7 @@ def check_point(pt):
     for i in range(r):
         for j in range(c):
             col = np.asarray(cur[j].data)
-            want_nan = ((j != 0) and kinds[i][j] in "NM" and pol == "strict") or kinds[i][j] == "L"
+            want_nan = ((j != 0) and kinds[i][j] in "NM" and pol == "strict" and mode != "nonull-reuse") or kinds[i][j] == "L"
             exp_mask[i, j] = want_nan
             try:
                 got = float(col[i])
@@ -202,7 +230,8 @@ def check_point(pt):
         got = [str(x) for x in np.asarray(cur[c].data).tolist()]
         if got != ["abc%d" % i for i in range(r)]:
             vio.append(V("text-column-changed", ["abc%d" % i for i in range(r)], got))
-    if vio:
+    if vio or mode == "nonull-reuse":
+        # (an object without a NULL item has no "current NULL value" to emit NaN as: the write clauses do not apply)
         return vio[:3], nontriv, "ok", {}, 1
     # write with defaults, read back: NaN positions of non-index columns are identical
     evals = 1
